@@ -579,7 +579,7 @@ def validate_rules(ctx):
     # Function::used_decision_variable_ids dispatches to every payload kind
     b = ctx.method('C08.defined/Function::used_ids/anchor', 'v1::Function', 'used_decision_variable_ids')
     if b is not None:
-        got = sorted({short(c.self_ty) for c in b.calls if c.item == 'used_decision_variable_ids' and (c.self_ty or '').startswith('v1::')})
+        got = sorted({short(c.self_ty) for fb in [b] + list(ctx.F.closures_of(b)) for c in fb.calls if c.item == 'used_decision_variable_ids' and (c.self_ty or '').startswith('v1::')})
         ctx.check(got == ['Linear', 'Polynomial', 'Quadratic'], 'C08.defined/Function::used_ids/arms', 'T-BRANCHFX', b.name, 'payload kinds consulted: %s' % got, b.site())
     for ty, need in (('v1::Linear', [('v1::linear::Term', 'id')]), ('v1::Quadratic', [('v1::Quadratic', 'rows'), ('v1::Quadratic', 'columns'), ('v1::Quadratic', 'linear')]), ('v1::Polynomial', [('v1::Monomial', 'ids')])):
         b = ctx.method('C08.defined/%s::used_ids/anchor' % short(ty), ty, 'used_decision_variable_ids')
@@ -587,6 +587,144 @@ def validate_rules(ctx):
             rs = ctx.S.backslice(b, [0])
             miss = [f for a, f in need if not rs.has_field(a, f)]
             ctx.check(not miss, 'C08.defined/%s::used_ids/fields' % short(ty), 'T-CARRY', b.name, 'id fields not reported: %s' % miss, b.site())
+
+
+# =============================================================================================
+# C08.used-kernel: the per-function kernels of "used ids"
+# =============================================================================================
+def returned_object(body):
+    """locals that ARE the returned value (moved / copied into _0, transitively)"""
+    R = {0}; changed = True
+    while changed:
+        changed = False
+        for bi, st in body.stmts():
+            d = st['dst']; rv = st['rv']
+            if d['p'] or d['l'] not in R or rv['k'] != 'use': continue
+            x = _whole(rv['ops'][0])
+            if x is not None and x not in R: R.add(x); changed = True
+    return R
+
+
+def conditional_closure_locals(ctx, body):
+    """locals holding a closure that runs only for one variant of its receiver: every closure handed to a call that is not an
+    iterator adaptor / consumer (Option::map, map_or_else, and_then, unwrap_or_else, Result::map, bool::then, ..).
+    What such a closure reads does not reach the result on every path."""
+    out = set()
+    for c in body.calls:
+        tr = c.trait or ''
+        if tr.endswith('Iterator') or tr.endswith('Extend') or tr.endswith('FromIterator'): continue
+        for a in c.args:
+            if a['k'] in ('copy', 'move') and closure_of_operand(ctx, body, a) is not None:
+                l = a['pl']['l']
+                for _ in range(6):
+                    out.add(l)
+                    ds = [d for d in body.defs_of(l) if not (d[0] == 'stmt' and d[2]['dst']['p'])]
+                    if len(ds) == 1 and ds[0][0] == 'stmt' and ds[0][2]['rv']['k'] == 'use' and _whole(ds[0][2]['rv']['ops'][0]) is not None: l = _whole(ds[0][2]['rv']['ops'][0])
+                    else: break
+    return out
+
+
+def contribution_sites(ctx, body, wanted, coll=None, unconditional=True):
+    """blocks at which a value satisfying `wanted(slice)` is written into the returned object (a call / aggregate whose
+    destination -- or `&mut` receiver -- is the returned object and whose other inputs derive from the wanted source).
+    A site inside a loop over the source (unrestricted, every iteration passes the site) is promoted to the loop header.
+    unconditional: inputs are sliced without the closures of Option/Result combinators."""
+    from ..dataflow import node_of
+    R = returned_object(body)
+    stops = tuple(conditional_closure_locals(ctx, body)) if unconditional else ()
+
+    def sl(o):
+        if o['k'] not in ('copy', 'move'): return None
+        s = ctx.S.backslice(body, [node_of(o['pl'])], stop_locals=stops); ctx.counters['slices'] += 1
+        for af in fields_of_place(o['pl']): s.fields.add(af)
+        return s
+
+    def restricted(s):
+        # only a part of the source: a restricting adaptor on the way, here or inside a closure that was not spliced
+        if any(x.item in RESTRICTING and 'Iterator' in (x.trait or '') for x in s.call_objs): return True
+        for cn in s.closures:
+            cb = ctx.F.bodies.get(cn)
+            if cb is not None and any(x.item in RESTRICTING and 'Iterator' in (x.trait or '') for x in cb.calls): return True
+        return False
+
+    def carries(ops, call=None):
+        for o in ops:
+            s = sl(o)
+            if s is None or not wanted(s, call) or restricted(s): continue
+            return True
+        return False
+    raw = set()
+    for c in body.calls:
+        if c.dst['l'] in R and carries(c.args, c): raw.add(c.bb)
+        for i, a in enumerate(c.args):
+            if a['k'] in ('copy', 'move') and body.locals[a['pl']['l']].lstrip().startswith('&mut') and root_of(body, a) in R and carries([x for j, x in enumerate(c.args) if j != i], c): raw.add(c.bb)
+    for bi, st in body.stmts():
+        if st['dst']['l'] in R and st['rv']['k'] != 'use' and carries(st['rv'].get('ops', [])): raw.add(bi)
+    sites = set(raw)
+    for bb in raw:
+        cur = bb
+        for _ in range(4):
+            los = [lo for lo in T.for_loops(body) if cur in lo[4] and lo[1] != cur]
+            if not los: break
+            lo = min(los, key=lambda x: len(x[4]))
+            it = sl(lo[0].args[0])
+            if it is None or not (wanted(it, None) or (coll and it.has_field(*coll))): break
+            if restricted(it): break
+            if not T.must_pass(body, lo[2], {lo[1]}, {cur}): break
+            cur = lo[1]; sites.add(cur)
+    return sites
+
+
+def on_every_path(body, sites, also=()):
+    """every feasible path from the entry to a return passes one of the blocks"""
+    stop = tuple(sorted(set(sites) | set(also)))
+    if 0 in stop: return True
+    return bool(sites) and not (reach_vp(body, [0], stop=stop) & set(body.return_blocks()))
+
+
+def used_kernel_rules(ctx):
+    R = 'C08.used-kernel'
+    KERNELS = (('v1::Linear', [('terms.id', ('v1::linear::Term', 'id'), ('v1::Linear', 'terms'))]),
+               ('v1::Quadratic', [('rows', ('v1::Quadratic', 'rows'), None), ('columns', ('v1::Quadratic', 'columns'), None)]),
+               ('v1::Polynomial', [('monomial.ids', ('v1::Monomial', 'ids'), ('v1::Polynomial', 'terms'))]))
+    for ty, fields in KERNELS:
+        b = ctx.method(R + '/%s/anchor' % short(ty), ty, 'used_decision_variable_ids')
+        if b is None: continue
+        for name, key, coll in fields:
+            sites = contribution_sites(ctx, b, lambda s, call, key=key: s.has_field(*key), coll)
+            ctx.check(on_every_path(b, sites), R + '/%s/%s' % (short(ty), name), 'T-CARRY', b.name,
+                      'the ids in %s.%s do not reach the returned set on every path (%s)' % (short(key[0]), key[1], 'only inside a closure / branch that runs for one case' if not sites else 'a path to the return avoids the contribution'), b.site())
+        if ty == 'v1::Quadratic':
+            # the optional linear part: contributes whenever it is set (its closure / Some arm may be conditional)
+            KERNEL = r'impl v1::Linear>::used_decision_variable_ids'
+            def lin(s, call): return s.has_field('v1::Quadratic', 'linear') and (s.has_call(KERNEL) or s.has_field('v1::linear::Term', 'id') or any(re.search(KERNEL, x) for x in s.fnconsts) or (call is not None and bool(re.search(KERNEL, call.name))))
+            sites = contribution_sites(ctx, b, lin, None, unconditional=False)
+            unset = [g.false_bb for g in option_tests(b, 'v1::Quadratic', 'linear') if g.false_bb is not None]
+            ctx.check(on_every_path(b, sites, unset), R + '/Quadratic/linear', 'T-CARRY', b.name, 'the ids of the linear part do not reach the returned set whenever it is set', b.site())
+    # Function: every oneof arm with variables hands the payload to its kernel and returns that set
+    b = ctx.method(R + '/Function/anchor', 'v1::Function', 'used_decision_variable_ids')
+    if b is not None:
+        adt = exact_adt(ctx, 'v1::function::Function')
+        for vname in ('Linear', 'Quadratic', 'Polynomial'):
+            dv = [v['discr'] for v in (adt or {}).get('variants', []) if v['name'] == vname]
+            ok = False; seen = False
+            for fb in [b] + list(ctx.F.closures_of(b)):
+                rs = ctx.S.backslice(fb, [0])
+                for bi in sorted(fb.live):
+                    t = fb.blocks[bi]['term']
+                    if t['k'] != 'switch' or t['d']['k'] == 'const' or not dv: continue
+                    for k2, b2, d in fb.defs_of(t['d']['pl']['l']):
+                        if k2 != 'stmt' or d['rv']['k'] != 'discr': continue
+                        pl = d['rv']['pl']
+                        fs = fields_of_place(pl); p = place_of(fb, pl)
+                        payload = (fs and fs[-1][0].endswith('Option::Some')) or value_has_type(fb, pl, 'v1::function::Function')
+                        if not payload or not (value_has_type(fb, pl, 'v1::function::Function') or (p and any(is_field(af, 'v1::Function', 'function') for af in p[1]))): continue
+                        seen = True
+                        m = {v: tg for v, tg in t['ts']}
+                        arm = m.get(dv[0], t['else'])
+                        via = {c.bb for c in fb.calls if c.item == 'used_decision_variable_ids' and (c.self_ty or '') == 'v1::' + vname and c.dst['l'] in rs.locals}
+                        if via and T.must_pass(fb, arm, set(fb.return_blocks()), via): ok = True
+            ctx.check(ok, R + '/Function/arm/' + vname, 'T-BRANCHFX', b.name, ('the %s arm does not return the ids of its payload' % vname) if seen else 'no case split on the oneof payload found', b.site())
 
 
 # =============================================================================================
@@ -1165,7 +1303,7 @@ def path_rules(ctx):
 
 
 def check(ctx):
-    validate_rules(ctx); enum_parse_rules(ctx); bound_rules(ctx); ids_rules(ctx); carry_rules(ctx); path_rules(ctx)
+    validate_rules(ctx); used_kernel_rules(ctx); enum_parse_rules(ctx); bound_rules(ctx); ids_rules(ctx); carry_rules(ctx); path_rules(ctx)
     # floors = decided instances on the pinned tree
     ctx.floor('C08.validate', 4); ctx.floor('C08.dup', 31); ctx.floor('C08.defined', 19); ctx.floor('C08.parse.required', 15); ctx.floor('C08.parse.bound', 12)
-    ctx.floor('C08.parse.ids', 31); ctx.floor('C08.parse.carry', 39); ctx.floor('C08.parse.default', 4); ctx.floor('C08.parse.path', 30)
+    ctx.floor('C08.parse.ids', 31); ctx.floor('C08.parse.carry', 39); ctx.floor('C08.parse.default', 4); ctx.floor('C08.parse.path', 30); ctx.floor('C08.used-kernel', 8)
